@@ -13,7 +13,9 @@
 (*           ones, one per clause (no relation is vacuous); the domain predicate on known points.                  *)
 EXTENDS Cam16, TLC, Json
 
-CONSTANTS Emit
+CONSTANTS Emit,      \* print one REPLAY line per lattice case
+          Mode,      \* "lat": only the lattice; "self": only the self checks; "all"
+          Stride     \* self-check grids are thinned to every Stride-th point (1 in the thorough tier)
 
 VARIABLE case
 
@@ -43,26 +45,35 @@ Good == 85
 V3(a, b, c) == <<a, b, c>>
 Near(a, b, bits) == FxNear(a, b, bits, 200)
 
-UcsJCase(n) == LET J == FxRat(n, 2)                                      \* 0, 0.5, ..., 120
-                   Jp == UcsJFwd(J)
-               IN /\ UcsJBits(J, Jp) >= Good /\ UcsJInvBits(Jp, J) >= Good
-                  /\ Near(UcsJInv(Jp), J, Good)
-                  /\ Near(UcsJFwd(UcsJInv(J)), J, Good)                   \* and the other way round (J read as a J')
-                  /\ (n > 0 => UcsJBits(J, FxAdd(Jp, FxEps(30))) < 40)    \* a perturbed J' is rejected
-UcsMCase(n) == LET M == FxRat(n, 2)                                      \* 0, 0.5, ..., 150
-                   Mp == UcsMFwd(M)
-               IN /\ UcsMBits(M, Mp) >= Good /\ UcsMInvBits(Mp, M) >= Good
-                  /\ Near(UcsMInv(Mp), M, 80)
-                  /\ Near(UcsMFwd(UcsMInv(M)), M, 80)
-                  /\ UcsMBits(M, FxAdd(Mp, FxEps(24))) < 40 /\ UcsMInvBits(FxAdd(Mp, FxEps(24)), M) < 40
-PolarCase(n) == LET h == FxInt(15 * n - 360)                             \* -360, -345, ..., 720
-                    sc == SinCosDeg(h)
-                IN \A m \in {0, 1, 7, 50} :
-                     LET Mp == FxInt(m)
-                         a == FxMul(Mp, sc[2])  b == FxMul(Mp, sc[1])
-                     IN /\ Near(FxAdd(FxSqr(a), FxSqr(b)), FxSqr(Mp), 80)
-                        /\ UcsPolarBits(V3(FxInt(40), a, b), V3(FxInt(40), Mp, h)) >= Good
-                        /\ (m > 0 => UcsPolarBits(V3(FxInt(40), a, b), V3(FxInt(40), Mp, FxAdd(h, FxRat(1, 1000)))) < 40)
+D(x) == DyOfFx(x)
+DV3(a, b, c) == <<DyOfFx(a), DyOfFx(b), DyOfFx(c)>>
+UcsJCase1(n, J, Jp) == /\ UcsJBits(D(J), D(Jp)) >= Good /\ UcsJInvBits(D(Jp), D(J)) >= Good
+                       /\ Near(UcsJInv(Jp), J, Good)
+                       /\ Near(UcsJFwd(UcsJInv(J)), J, Good)                         \* and the other way round (J read as a J')
+                       /\ (n > 0 => UcsJBits(D(J), D(FxAdd(Jp, FxEps(30)))) < 40)    \* a perturbed J' is rejected
+UcsJCase(n) == UcsJCase1(n, FxInt(n), UcsJFwd(FxInt(n)))                             \* J = 0, 1, ..., 120
+UcsMCase1(M, Mp) == /\ UcsMInvBitsP(Mp, M, 8) >= Good                                           \* exp undoes ln, 104-bit
+                    /\ UcsMBits(D(M), D(Mp), 5) >= 52 /\ UcsMInvBits(D(Mp), D(M), 5) >= 52        \* the precisions used on recordings
+                    /\ UcsMBits(D(M), D(Mp), 3) >= 28 /\ UcsMInvBits(D(Mp), D(M), 3) >= 28
+                    /\ Near(UcsMInv(Mp), M, 80)
+                    /\ Near(UcsMFwd(UcsMInv(M)), M, 80)                                          \* and the other way round
+                    /\ UcsMBits(D(M), D(FxAdd(Mp, FxEps(24))), 5) < 40 /\ UcsMInvBits(D(FxAdd(Mp, FxEps(24))), D(M), 5) < 40
+                    /\ UcsMBits(D(M), D(FxAdd(Mp, FxEps(15))), 3) < 25 /\ UcsMInvBits(D(FxAdd(Mp, FxEps(15))), D(M), 3) < 25
+UcsMCase(n) == UcsMCase1(FxInt(n), UcsMFwd(FxInt(n)))                                \* M = 0, 1, ..., 150
+PolarCase2(m, Mp, h, a, b) ==
+  /\ Near(FxAdd(FxSqr(a), FxSqr(b)), FxSqr(Mp), 80)
+  /\ UcsPolarBits(DV3(FxInt(40), a, b), DV3(FxInt(40), Mp, h), 8) >= Good
+  /\ UcsPolarBits(DV3(FxInt(40), a, b), DV3(FxInt(40), Mp, h), 5) >= 52
+  /\ UcsPolarBits(DV3(FxInt(40), a, b), DV3(FxInt(40), Mp, h), 3) >= 28
+  /\ (m > 0 => UcsPolarBits(DV3(FxInt(40), a, b), DV3(FxInt(40), Mp, FxAdd(h, FxRat(1, 1000))), 8) < 40)
+  /\ (m > 0 => UcsPolarBits(DV3(FxInt(40), a, b), DV3(FxInt(40), Mp, FxAdd(h, FxRat(1, 1000))), 3) < 25)
+PolarCase1(h, sc, ref) ==
+  /\ Near(sc[1], ref[1], 90) /\ Near(sc[2], ref[2], 90)                   \* LnExp!SinCosP agrees with Trig!SinCosDeg
+  /\ \A m \in {0, 1, 7, 50} : PolarCase2(m, FxInt(m), h, FxMul(FxInt(m), sc[2]), FxMul(FxInt(m), sc[1]))
+  (* a tiny colourfulness is judged as precisely as a large one *)
+  /\ UcsPolarBits(DV3(FxInt(40), FxShr(sc[2], 50), FxShr(sc[1], 50)), DV3(FxInt(40), FxEps(50), h), 5) >= 40
+PolarCase(n) == PolarCase1(FxAdd(FxInt(15 * n - 360), FxRat(n, 7)), SinCosP(FxAdd(FxInt(15 * n - 360), FxRat(n, 7)), 8),
+                           SinCosDeg(FxAdd(FxInt(15 * n - 360), FxRat(n, 7))))   \* -360 .. 730 in steps of 15 1/7
 
 (* tabulated values (e.g. Abramowitz & Stegun, tables 4.2, 4.4; 36 decimals, groups of four) *)
 Ln3 == FxDec(1, 1, <<986, 1228, 8668, 1096, 9139, 5245, 2369, 2252, 5704>>)
@@ -76,25 +87,27 @@ Ln442 == FxDec(1, 1, <<4861, 3969, 6089, 6067, 5768, 4271, 2715, 2789, 3293>>)
 Ln03 == FxDec(-1, 1, <<2039, 7280, 4325, 9359, 9262, 2746, 2177, 6183, 8502>>)
 Exp114 == FxDec(1, 3, <<1267, 6836, 5186, 1557, 5613, 1556, 2411, 7952, 6013>>)        \* exp(0.0228 * 50)
 Ucs100 == FxDec(1, 52, <<983, 9571, 9125, 1036, 8782, 7931, 545, 2670, 5149>>)        \* ln(1 + 2.28)/0.0228
-SeriesCases == <<
-  Near(FxLn(FxOne), FxZero, 95) /\ Near(FxExp(FxZero), FxOne, 95),
-  Near(FxLn(FxInt(2)), Ln2Fx, 94) /\ Near(FxLn(FxRat(1, 2)), FxNeg(Ln2Fx), 94),
-  Near(FxLn(FxInt(3)), Ln3, 94),
-  Near(FxLn(FxInt(10)), Ln10, 93),
-  Near(FxLn(FxRat(3, 2)), Ln15, 94),
-  Near(FxLn(FxRat(442, 100)), Ln442, 93),
-  Near(FxLn(FxRat(3, 10)), Ln03, 93),
-  Near(FxLn(EFx), FxOne, 94),
-  Near(FxExp(FxOne), EFx, 92),
-  Near(FxExp(FxRat(1, 2)), SqrtE, 93),
-  Near(FxExp(FxInt(-1)), InvE, 93),
-  Near(FxExp(FxInt(3)), E3, 89),
-  Near(FxExp(FxRat(114, 100)), Exp114, 92),
-  Near(UcsMFwd(FxInt(100)), Ucs100, 86),
-  Near(FxSqr(Sqrt2Fx), FxInt(2), 100),
-  \A k \in 1..40 : Near(FxExp(FxLn(FxRat(k, 8))), FxRat(k, 8), 90),               \* 1/8 .. 5
-  \A k \in -16..24 : Near(FxLn(FxExp(FxRat(k, 8))), FxRat(k, 8), 90)              \* -2 .. 3
->>
+NSeries == 16
+SeriesCase(n) ==
+  CASE n = 1 -> Near(FxLn(FxOne), FxZero, 95) /\ Near(FxExp(FxZero), FxOne, 95) /\ Near(FxSqr(Sqrt2Fx), FxInt(2), 100)
+    [] n = 2 -> Near(FxLn(FxInt(2)), Ln2Fx, 94) /\ Near(FxLn(FxRat(1, 2)), FxNeg(Ln2Fx), 94)
+    [] n = 3 -> Near(FxLn(FxInt(3)), Ln3, 94) /\ Near(FxLn(FxInt(10)), Ln10, 93)
+    [] n = 4 -> Near(FxLn(FxRat(3, 2)), Ln15, 94) /\ Near(FxLn(FxRat(442, 100)), Ln442, 93)
+    [] n = 5 -> Near(FxLn(FxRat(3, 10)), Ln03, 93) /\ Near(FxLn(EFx), FxOne, 94)
+    [] n = 6 -> Near(FxExp(FxOne), EFx, 92) /\ Near(FxExp(FxRat(1, 2)), SqrtE, 93)
+    [] n = 7 -> Near(FxExp(FxInt(-1)), InvE, 93) /\ Near(FxExp(FxInt(3)), E3, 89)
+    [] n = 8 -> Near(FxExp(FxRat(114, 100)), Exp114, 92) /\ Near(UcsMFwd(FxInt(100)), Ucs100, 86)
+    [] n \in {9, 10} ->  (* the reduced precisions used on recordings: 65 and 39 fractional bits *)
+       LET fl == IF n = 9 THEN 5 ELSE 3
+       IN /\ Near(FxOfP(LnP(PInt(3, fl), fl), fl), Ln3, 13 * fl - 8)
+          /\ Near(FxOfP(LnP(PRat(442, 100, fl), fl), fl), Ln442, 13 * fl - 8)
+          /\ Near(FxOfP(LnP(PRat(3, 10, fl), fl), fl), Ln03, 13 * fl - 8)
+          /\ Near(FxOfP(ExpP(POne(fl), fl), fl), EFx, 13 * fl - 9)
+          /\ Near(FxOfP(ExpP(PInt(3, fl), fl), fl), E3, 13 * fl - 12)
+          /\ Near(FxOfP(ExpP(PRat(114, 100, fl), fl), fl), Exp114, 13 * fl - 9)
+          /\ Near(FxOfP(PDiv(PInt(355, fl), PInt(113, fl), fl), fl), FxRat(355, 113), 13 * fl - 8)
+    [] n \in 11..13 -> \A k \in (16 * (n - 11) + 1)..(16 * (n - 11) + 16) : Near(FxExp(FxLn(FxRat(k, 8))), FxRat(k, 8), 90)     \* 1/8 .. 6
+    [] n \in 14..16 -> \A k \in (16 * (n - 14) - 16)..(16 * (n - 14) - 1) : Near(FxLn(FxExp(FxRat(k, 8))), FxRat(k, 8), 90)    \* -2 .. 4
 
 (* the published definitions imply the relations (a..d) for every pair of colours under the same conditions *)
 CS == <<FxRat(525, 1000), FxRat(59, 100), FxRat(69, 100)>>
@@ -102,17 +115,18 @@ AWS == <<FxInt(5), FxRat(307, 10), FxRat(955, 10)>>
 FLS == <<FxRat(1, 2), FxOne, FxRat(112, 100)>>
 JRS == <<FxRat(1, 10), FxRat(1, 2), FxOne>>
 ALS == <<FxRat(1, 100), FxOne, FxRat(31, 10)>>
-AttrCase(n) ==
-  LET p == [c |-> CS[(n % 3) + 1], aw |-> AWS[((n \div 3) % 3) + 1], fl4 |-> FLS[(n \div 9) + 1]]
-      A(jr, al) == [J |-> DyOfFx(PubJ(jr)), C |-> DyOfFx(PubC(jr, al)), Q |-> DyOfFx(PubQ(p, jr)),
-                    M |-> DyOfFx(PubM(p, jr, al)), s2 |-> DyOfFx(PubS2(p, jr, al))]
-  IN \A i1 \in 1..3, k1 \in 1..3, i2 \in 1..3, k2 \in 1..3 :
-       LET u == A(JRS[i1], ALS[k1])  v == A(JRS[i2], ALS[k2])
-       IN /\ SatLinkBits(u.s2, u.Q, u.M) >= 80
-          /\ PairMCBits(u.M, u.C, v.M, v.C) >= 80
-          /\ PairQJBits(u.Q, u.J, v.Q, v.J) >= 80
-          /\ PairSQMBits(u.s2, u.Q, u.M, v.s2, v.Q, v.M) >= 80
-          /\ Near(PubS2(p, JRS[i1], ALS[k1]), PaletteS2(p, FxDiv(PubC(JRS[i1], ALS[k1]), JRS[i1])), 80)
+AttrOf(p, jr, al) == [J |-> DyOfFx(PubJ(jr)), C |-> DyOfFx(PubC(jr, al)), Q |-> DyOfFx(PubQ(p, jr)),
+                      M |-> DyOfFx(PubM(p, jr, al)), s2 |-> DyOfFx(PubS2(p, jr, al))]
+AttrPair(u, v) == /\ SatLinkBits(u.s2, u.Q, u.M) >= 80
+                  /\ PairMCBits(u.M, u.C, v.M, v.C) >= 80
+                  /\ PairQJBits(u.Q, u.J, v.Q, v.J) >= 80
+                  /\ PairSQMBits(u.s2, u.Q, u.M, v.s2, v.Q, v.M) >= 80
+AttrCase2(p, as) ==
+  /\ \A i \in DOMAIN as : \A k \in DOMAIN as : AttrPair(as[i], as[k])
+  /\ \A i \in 1..3 : \A k \in 1..3 :
+       Near(PubS2(p, JRS[i], ALS[k]), PaletteS2(p, FxDiv(PubC(JRS[i], ALS[k]), JRS[i])), 80)
+AttrCase1(p) == AttrCase2(p, [m \in 1..9 |-> AttrOf(p, JRS[((m - 1) % 3) + 1], ALS[((m - 1) \div 3) + 1])])
+AttrCase(n) == AttrCase1([c |-> CS[(n % 3) + 1], aw |-> AWS[((n \div 3) % 3) + 1], fl4 |-> FLS[(n \div 9) + 1]])
 
 (* exact events from the published definitions: c = 1/2, A_w = 28, F_L^(1/4) = 2:
    jr = 1/2, alpha = 64: J 25, C 32, Q 256, M 64, s 50;   jr = 1/4, alpha = 16: J 6.25, C 4, Q 128, M 8, s 25 *)
@@ -129,7 +143,7 @@ ConvEv(kind, x, full) ==
 BlackEv(kind) == ConvEv(kind, V3(FxZero, FxZero, FxZero), <<FxZero, FxZero, FxInt(0), FxZero, FxZero, FxZero>>)
 PairEv(f1, f2) == [ev |-> "pair", t |-> "f64", params |-> 0, panic |-> 0, x1 |-> JV(X1), x2 |-> JV(X2), f1 |-> JV(f1), f2 |-> JV(f2)]
 UcsEv(J, M, h) ==
-  LET Jp == UcsJFwd(J)  Mp == UcsMFwd(M)  sc == SinCosDeg(h)
+  LET Jp == UcsJFwd(J)  Mp == UcsMFwd(M)  sc == SinCosP(h, 8)
       jmh == JV(V3(J, M, h))  ujmh == JV(V3(Jp, Mp, h))  ujab == JV(V3(Jp, FxMul(Mp, sc[2]), FxMul(Mp, sc[1])))
   IN [ev |-> "ucs", t |-> "f64", panic |-> 0, jmh |-> jmh, ujmh |-> ujmh, ujab |-> ujab, ujabd |-> ujab, ujmhb |-> ujmh,
       jmhb |-> jmh, jmhd |-> jmh, ujmhc |-> ujmh]
@@ -193,8 +207,8 @@ JudgeCase(n) ==
                  /\ UcsWhy([U0 EXCEPT !.jmhd = JV(Bump(FxV(@), 2, 30))]) = "ucs-colourfulness-inverse"
                  /\ UcsWhy([U0 EXCEPT !.jmhb = JV(Bump(FxV(@), 3, 30))]) = "ucs-round-trip"
     [] n = 20 -> (* the UCS constants: 0.0288 instead of 0.0228, 0.07 instead of 0.007 *)
-       /\ UcsMBits(FxInt(39), FxDiv(FxLn(FxAdd(FxOne, FxMul(FxRat(288, 10000), FxInt(39)))), FxRat(288, 10000))) < 10
-       /\ UcsJBits(FxInt(45), FxDiv(FxMul(C17, FxInt(45)), FxAdd(FxOne, FxMul(FxRat(7, 100), FxInt(45))))) < 5
+       /\ UcsMBitsP(FxInt(39), FxDiv(FxLn(FxAdd(FxOne, FxMul(FxRat(288, 10000), FxInt(39)))), FxRat(288, 10000)), 8) < 10
+       /\ UcsJBits(D(FxInt(45)), D(FxDiv(FxMul(C17, FxInt(45)), FxAdd(FxOne, FxMul(FxRat(7, 100), FxInt(45)))))) < 5
     [] n = 21 -> (* the domain: sRGB primaries, white and a dark grey have non-negative cone responses ... *)
        /\ InDomain(V3(FxRat(4124, 10000), FxRat(2126, 10000), FxRat(193, 10000))) /\ InDomain(V3(FxRat(3576, 10000), FxRat(7152, 10000), FxRat(1192, 10000)))
        /\ InDomain(V3(FxRat(1805, 10000), FxRat(722, 10000), FxRat(9505, 10000))) /\ InDomain(WhiteD65)
@@ -205,20 +219,28 @@ JudgeCase(n) ==
        /\ ~InDomain(V3(FxRat(-1, 10), FxRat(-1, 10), FxRat(-1, 10))) /\ ~InDomain(V3(FxRat(103, 1000), FxRat(-208, 10000), FxRat(936, 1000)))
        /\ ~InDomain(V3(FxEps(40), FxEps(40), FxEps(40)))
 
-Cases == LatCases
-         \cup {<<"ucsj", n>> : n \in 0..240} \cup {<<"ucsm", n>> : n \in 0..300} \cup {<<"polar", n>> : n \in 0..72}
-         \cup {<<"series", n>> : n \in DOMAIN SeriesCases} \cup {<<"attr", n>> : n \in 0..26}
-         \cup {<<"judge", n>> : n \in 1..NJudge}
+SelfCases == {<<"ucsj", n>> : n \in {k \in 0..120 : k % Stride = 0}} \cup {<<"ucsm", n>> : n \in {k \in 0..150 : k % Stride = 0}}
+             \cup {<<"polar", n>> : n \in {k \in 0..72 : k % Stride = 0}}
+             \cup {<<"series", n>> : n \in 1..NSeries} \cup {<<"attr", n>> : n \in {k \in 0..26 : k % Stride = 0}}
+             \cup {<<"judge", n>> : n \in 1..NJudge}
+(* TLC computes initial states sequentially, so the cases are reached in two steps (start -> group -> case) and the
+   groups are expanded by the workers in parallel *)
+NSelfGroups == 24
+GroupOf(c) == IF c[1] = "lat" THEN c[2] ELSE Len(LA) + 1 + ((c[2] \div Stride + Len(c[1])) % NSelfGroups)
+Groups == 1..(Len(LA) + NSelfGroups)
+Cases == (IF Mode \in {"lat", "all"} THEN LatCases ELSE {}) \cup (IF Mode \in {"self", "all"} THEN SelfCases ELSE {})
 
-Init == case \in Cases
-Next == UNCHANGED case
+Init == case = <<"start">>
+Next == \/ case = <<"start">> /\ case' \in {<<"group", g>> : g \in Groups}
+        \/ case[1] = "group" /\ case' \in {c \in Cases : GroupOf(c) = case[2]}
 Spec == Init /\ [][Next]_case
 
-CaseHolds(c) == CASE c[1] = "lat" -> Valid(LA[c[2]], YB[c[3]], SUR[c[4]], DISC[c[5]])
+CaseHolds(c) == CASE c[1] \in {"start", "group"} -> TRUE
+                  [] c[1] = "lat" -> Valid(LA[c[2]], YB[c[3]], SUR[c[4]], DISC[c[5]])
                   [] c[1] = "ucsj" -> UcsJCase(c[2])
                   [] c[1] = "ucsm" -> UcsMCase(c[2])
                   [] c[1] = "polar" -> PolarCase(c[2])
-                  [] c[1] = "series" -> SeriesCases[c[2]]
+                  [] c[1] = "series" -> SeriesCase(c[2])
                   [] c[1] = "attr" -> AttrCase(c[2])
                   [] c[1] = "judge" -> JudgeCase(c[2])
 Holds == CaseHolds(case) \/ (PrintT(<<"case fails", case>>) /\ FALSE)
